@@ -3,6 +3,7 @@ use crate::case::{Case, Sink};
 use crate::delivery;
 use crate::resp::{run_resp, HeadOut, Reads, RespCase};
 use crate::script::Seg;
+use crate::send::{run_send, BodyR, FinalObs, ProxyCfg, SendCase};
 use crate::spec::{self, Decoded, End};
 
 #[derive(Debug, Clone, PartialEq)]
@@ -211,6 +212,51 @@ pub fn generate(_seed: u64, tier: &str, sink: &mut Sink) {
                         run_one(m, *st, cls, tes, o, body_after[bi], bi, sink);
                     }
                 }
+            }
+        }
+    }
+    // third pass: the same refusals on a response that is not the one handed to the caller — a redirect that is
+    // followed. "Make the exchange fail" holds for every response of the exchange: a 3xx with an unusable
+    // Content-Length is not followed.
+    let bad: [&[&str]; 7] = [&["-1"], &["abc"], &[""], &["18446744073709551616"], &["5", "6"], &["+0"], &["0", "x"]];
+    let good: [&[&str]; 3] = [&["0"], &["0", "00"], &[]];
+    for st in [301u16, 302, 303, 307, 308] {
+        for (cls, is_bad) in bad.iter().map(|c| (c, true)).chain(good.iter().map(|c| (c, false))) {
+            for chunked_too in [false, true] {
+                let mut first = format!("HTTP/1.1 {} X\r\nLocation: /final\r\n", st).into_bytes();
+                for v in cls.iter() {
+                    first.extend_from_slice(format!("Content-Length: {}\r\n", v).as_bytes());
+                }
+                if chunked_too {
+                    // chunked wins: the Content-Length fields are not even looked at
+                    first.extend_from_slice(b"Transfer-Encoding: chunked\r\n\r\n0\r\n\r\n");
+                } else {
+                    first.extend_from_slice(b"\r\n");
+                }
+                let case = SendCase {
+                    method: "GET".into(),
+                    url: "http://verif.test/start".into(),
+                    follow: true,
+                    max_redirections: 3,
+                    max_headers: 100,
+                    compress: false,
+                    proxy: ProxyCfg { http: None, https: None, no_proxy: vec![] },
+                    params: vec![],
+                    pre: vec![],
+                    body: BodyR::Empty,
+                    post: vec![],
+                    hops: vec![(vec![Seg::Data(first)], Some(b"/final".to_vec())), (vec![Seg::Data(b"HTTP/1.1 200 OK\r\nContent-Length: 2\r\n\r\nok".to_vec())], None)],
+                    plain_tunnel: false,
+                };
+                let obs = run_send(&case);
+                let refuse = is_bad && !chunked_too;
+                let o = match (&obs.fin, refuse) {
+                    (FinalObs::Err(k), true) if k == "contentLength" && obs.hops.len() == 1 => Ok(()),
+                    (FinalObs::Ok(200, _), false) if obs.hops.len() == 2 => Ok(()),
+                    (f, true) => Err(("bad-length-accepted-on-redirect".to_string(), format!("a {} with Content-Length {:?} was followed: {} requests, final {:?}", st, cls, obs.hops.len(), f))),
+                    (f, false) => Err(("valid-redirect-refused".to_string(), format!("a {} with Content-Length {:?} (chunked: {}): {} requests, final {:?}", st, cls, chunked_too, obs.hops.len(), f))),
+                };
+                sink.push(Case { tags: vec!["expect=redirect-hop".into(), format!("status={}", st), format!("ncl={}", cls.len()), format!("refuse={}", refuse)], op: case.op_line(&obs), impl_line: obs.line(), oracle: o });
             }
         }
     }
